@@ -358,6 +358,8 @@ def merge(agg, o, profile):
     agg["cells"].update(o.get("cells") or [])
     agg["sigs"].update((profile + ":" + s) for s in (o.get("sigs") or []))
     agg["nontrivial"] += o.get("nontrivial_runs", 0)
+    if o.get("sigs_truncated"):
+        agg["sigs_truncated"] = True
     agg["leaked"] += o.get("leaked", 0)
     pr = agg["profiles"].setdefault(profile, {"runs": 0, "wall_s": 0.0})
     pr["runs"] += o["runs"]
@@ -458,7 +460,8 @@ def write_evidence(prop, tier, seed, meta, agg, wall, reported, known_hit, wall_
         "simulated_seconds": round(agg["sim_ns"] / 1e9, 3),
         "scheduler_steps": agg["steps"],
         "nontrivial_runs": agg["nontrivial"],
-        "distinct_measure": "distinct 64-bit signatures of the (configuration, action, observation) sequence chosen by the scheduler, among non-trivial runs",
+        "distinct_measure": "distinct 64-bit signatures of the (configuration, action, observation) sequence chosen by the scheduler, among non-trivial runs"
+                            + (" (lower bound: workers report at most 150000 signatures each)" if agg.get("sigs_truncated") else ""),
         "faults_fired": agg["faults"],
         "faults_configured": agg["faults_conf"],
         "hook_parks": agg["hooks"],
